@@ -195,6 +195,13 @@ class Renderer:
         d = self.rng.choice(['#', '#', '"', "'"])
         words = [self.rng.choice(COMMENT_WORDS)
                  for _ in range(self.rng.randrange(0, 4))]
+        # a comment runs to the next occurrence of ITS OWN delimiter: the
+        # other two delimiters may stand inside it as words
+        if self.rng.random() < 0.3:
+            other = [x for x in ('#', '"', "'") if x != d]
+            words.insert(self.rng.randrange(len(words) + 1),
+                         self.rng.choice(other))
+            self.features.add('comment-holds-other-delimiter')
         self.features.add('comment' + d)
         self.emit(d, *words, d)
 
